@@ -3,6 +3,7 @@ package main
 import (
 	"fmt"
 	"os"
+	"path/filepath"
 	"sort"
 	"strings"
 
@@ -279,6 +280,9 @@ func runC15(res *lib.Result, tier string, seed int64, args []string) error {
 		plainMain := files["main.lua"] // without the member-use lines: a use 'x.f' would itself add f to x's members
 		worldText := fmt.Sprintf("-- a.lua\n%s-- b.lua\n%s-- main.lua\n%s", files["a.lua"], files["b.lua"], validMain)
 		lib.Breadcrumb("C15 world:\n" + worldText)
+		// a class declared in a file of its own, which is deleted later: its members must go with it
+		delFile := "-- to be deleted\n---@class DelK\n---@field dk1 number\n---@class DelL : DelK\n---@field dl1 number\n"
+		os.WriteFile(filepath.Join(dir, "del.lua"), []byte(delFile), 0o644)
 		sess, err := lib.StartSession(dir, lib.AllChecksOptions())
 		if err != nil {
 			os.RemoveAll(dir)
@@ -372,6 +376,33 @@ func runC15(res *lib.Result, tier string, seed int64, args []string) error {
 					}
 				}
 				classify(caseText, fmt.Sprintf("member completion offers [%s], the declared and inherited members are [%s]", strings.Join(got, ","), strings.Join(qq.expected, ",")), diff)
+			}
+		}
+		// the class file is deleted (only a file event, nothing is re-analysed): the members it declared are gone
+		{
+			buf := plainMain + "---@type DelL\nlocal dv = nil\ndv."
+			line := strings.Count(buf, "\n")
+			ask := func() ([]string, error) {
+				sess.DidChange("main.lua", []lib.ContentChange{{Text: buf}})
+				items, err := sess.Completion("main.lua", line, len("dv."))
+				var got []string
+				for _, it := range items {
+					got = append(got, it.Label)
+				}
+				sort.Strings(got)
+				return got, err
+			}
+			before, err1 := ask()
+			os.Remove(filepath.Join(dir, "del.lua"))
+			sess.Watched(map[string]int{"del.lua": 3})
+			sess.Sync()
+			after, err2 := ask()
+			caseText := fmt.Sprintf("completion after \"dv.\" (---@type DelL) before and after del.lua is deleted\n-- del.lua\n%s%s", delFile, worldText)
+			res.Dist("deleted-class-file")
+			if err1 != nil || err2 != nil {
+				res.AddViolation("crash-or-timeout", fmt.Sprint(err1, err2), caseText, false)
+			} else if strings.Join(before, ",") != "dk1,dl1" || len(after) != 0 {
+				res.AddViolation("impl-vs-spec", fmt.Sprintf("members offered with del.lua present %v (declared and inherited: [dk1 dl1]), after its deletion %v (the class is declared nowhere: none)", before, after), caseText, false)
 			}
 		}
 		sess.Close()
